@@ -22,4 +22,6 @@ def run(ctx):
     ctx.configs["lib"] = info
     ctx.cfg = "lib"
     xml_rules.namespace_rules(ctx, prog, "R1", "R2", "R3")
+    import simple_rules
+    simple_rules.lookup_by_position(ctx, prog, "R3")
     ctx.cfg = None
